@@ -1,4 +1,5 @@
 import GoRedisModel.Proofs.Loop
+import GoRedisModel.Proofs.Frame
 /-! # C03 — every command gets exactly one reply, in order, without needing more input -/
 namespace GoRedis
 
@@ -100,5 +101,25 @@ example : wfs [.arr [B b!"PING"], .arr [B b!"QUIT"], .arr [B b!"PING"]] := by
 example : writesOf (serve (fun _ => none) {} false
     (encs [.arr [B b!"PING"], .arr [B b!"QUIT"], .arr [B b!"PING"]]) []) = [b!"+PONG\r\n", b!"+OK\r\n"] := by
   decide +kernel
+
+/-- **No read-ahead**: to return a complete request the parser issues no read to the transport beyond the request's
+own last byte – however the request itself is segmented (`pre`, any list of segments whose concatenation is the
+request) and whatever segments (`later`) the client sends afterwards, they are still unopened when the value is
+returned.  So the reply to a request is computed and written (`C03_reply_before_next`) before the server asks the
+transport for anything that follows it: a client that waits for the reply before sending more is never left
+waiting. -/
+theorem C03_no_read_ahead (v : Msg) (hw : wf v) (pre later : List Bytes) (hpre : pre.flatten = enc v)
+    (f : Nat) (hf : (enc v).length < f) (hd : depth v < f) :
+    ∃ r0', inext f ⟨pre⟩ = .ok v r0' ∧ r0'.rest = [] ∧ inext f ⟨pre ++ later⟩ = .ok v ⟨r0'.chunks ++ later⟩ := by
+  obtain ⟨r', h1, h2, h3⟩ := inext_frame f v ⟨pre⟩ [] later hw (by simp [Reader.rest, hpre]) (by simp [Reader.rest, hpre]; exact hf) hd
+  exact ⟨r', h1, h2, h3⟩
+
+/-- a request delivered in three segments, the next request already waiting behind it in two more: they are
+still two unopened segments after the first request has been read -/
+example : ∃ r0' : Reader, inext 40 ⟨[b!"*1\r\n$4", b!"\r\nPI", b!"NG\r\n"] ++ [b!"*1\r\n", b!"$4\r\nQUIT\r\n"]⟩ =
+    .ok (.arr [.bulk (some b!"PING")]) ⟨r0'.chunks ++ [b!"*1\r\n", b!"$4\r\nQUIT\r\n"]⟩ ∧ r0'.rest = [] := by
+  obtain ⟨r0', _, h2, h3⟩ := C03_no_read_ahead (.arr [.bulk (some b!"PING")]) (by simp [wf, wfs, maxBulk, maxInt])
+    [b!"*1\r\n$4", b!"\r\nPI", b!"NG\r\n"] [b!"*1\r\n", b!"$4\r\nQUIT\r\n"] (by decide) 40 (by decide) (by decide)
+  exact ⟨r0', h3, h2⟩
 
 end GoRedis
